@@ -3,7 +3,7 @@
    bad_model: indices where the model over the regenerated tables predicts something else (tie);
    bad_spec : indices where the real application contradicts the hand-written specification (violation). *)
 From QT Require Export C09.Model C09.SpecRun C09.Events.
-From QT Require Import Gen.C09Gen C09.Stateful.
+From QT Require Import Gen.C09Gen C09.Stateful C09.Listen.
 Open Scope string_scope.
 Open Scope Z_scope.
 
@@ -55,3 +55,6 @@ Definition bad_auth_model (on : list string) (cs : list acase) : list nat :=
 
 Definition bad_hist_model (on : list string) (hs : list hcase) : list nat :=
   mismatches (fun h : hcase => hist_model_ok gen_tables grant (flags_of on) pw_init (fst h) (snd h)) hs 0.
+
+Definition bad_listen_model (cs : list lcase) : list nat :=
+  mismatches (fun x : lcase => let '(l, tm, tr, dl) := x in same_set dl (listen_model l (if tm =? 0 then 60 else tm) tr)) cs 0.
